@@ -4,7 +4,10 @@ import (
 	"bytes"
 	"strconv"
 
+	"context"
 	"github.com/c4pt0r/kvql"
+	"io"
+	"strings"
 )
 
 // ---------------------------------------------------------------------------
@@ -492,6 +495,46 @@ type SimFault struct{ Token string }
 
 func (e *SimFault) Error() string { return e.Token }
 
+// faultFlavour: what error VALUE an injected fault returns, decided by the
+// call index. Most are *SimFault (unique token in the text); every fifth is
+// io.EOF itself and every seventh context.Canceled itself: well-known values
+// a library might be tempted to interpret ("EOF = no more data") instead of
+// surfacing them like any other storage error.
+func faultFlavour(seq int) error {
+	switch {
+	case seq%5 == 4:
+		return io.EOF
+	case seq%7 == 6:
+		return context.Canceled
+	}
+	return nil
+}
+
+func faultErr(ev *Event) error {
+	if s := faultFlavour(ev.Seq); s != nil {
+		return s
+	}
+	return &SimFault{ev.Err}
+}
+
+// faultSeqOf extracts the call index from a fault token ("simfault#<tag>-<seq>").
+func faultSeqOf(token string) int {
+	i := strings.LastIndexByte(token, '-')
+	if i < 0 {
+		return -1
+	}
+	n, err := strconv.Atoi(token[i+1:])
+	if err != nil {
+		return -1
+	}
+	return n
+}
+
+// looksFaulted: does an error text stem from an injected fault (of any flavour)?
+func looksFaulted(text string) bool {
+	return strings.Contains(text, "simfault#") || strings.Contains(text, io.EOF.Error()) || strings.Contains(text, context.Canceled.Error())
+}
+
 type stepCapPanic struct{}
 
 const stepCap = 30000
@@ -583,7 +626,7 @@ func (h *Handle) Get(key []byte) ([]byte, error) {
 	ev, f := h.begin(OpGet)
 	ev.Key = string(key)
 	if f != nil {
-		return nil, &SimFault{ev.Err}
+		return nil, faultErr(ev)
 	}
 	v, ok := h.core.get(key)
 	if !ok {
@@ -606,7 +649,7 @@ func (h *Handle) Put(key, value []byte) error {
 		if f.Kind == FApplied {
 			h.core.put(key, value)
 		}
-		return &SimFault{ev.Err}
+		return faultErr(ev)
 	}
 	h.core.put(key, value)
 	return nil
@@ -639,7 +682,7 @@ func (h *Handle) BatchPut(kvs []kvql.KVPair) error {
 	}
 	h.core.putMany(bk, bv)
 	if f != nil {
-		return &SimFault{ev.Err}
+		return faultErr(ev)
 	}
 	return nil
 }
@@ -652,7 +695,7 @@ func (h *Handle) Delete(key []byte) error {
 		if f.Kind == FApplied {
 			h.core.del(key)
 		}
-		return &SimFault{ev.Err}
+		return faultErr(ev)
 	}
 	h.core.del(key)
 	return nil
@@ -679,7 +722,7 @@ func (h *Handle) BatchDelete(keys [][]byte) error {
 	}
 	h.core.delMany(keys[:n])
 	if f != nil {
-		return &SimFault{ev.Err}
+		return faultErr(ev)
 	}
 	return nil
 }
@@ -698,7 +741,7 @@ func (h *Handle) Cursor() (kvql.Cursor, error) {
 	h.nCursors++
 	ev.Cur = h.nCursors
 	if f != nil {
-		return nil, &SimFault{ev.Err}
+		return nil, faultErr(ev)
 	}
 	c := &simCursor{h: h, id: h.nCursors}
 	if !h.lazySnap {
@@ -721,7 +764,7 @@ func (c *simCursor) Seek(k []byte) error {
 	ev.Cur = c.id
 	ev.Key = string(k)
 	if f != nil {
-		return &SimFault{ev.Err}
+		return faultErr(ev)
 	}
 	c.ensure()
 	c.ci, c.pi, _ = c.snap.find(k)
@@ -733,7 +776,7 @@ func (c *simCursor) Next() ([]byte, []byte, error) {
 	ev, f := c.h.begin(OpNext)
 	ev.Cur = c.id
 	if f != nil {
-		return nil, nil, &SimFault{ev.Err}
+		return nil, nil, faultErr(ev)
 	}
 	c.ensure()
 	if c.ci >= len(c.snap.chunks) {
